@@ -36,6 +36,7 @@ type Sch struct {
 	Fields []*Sch // struct
 	Names  []string
 	CK     string       // custom kind
+	Stale  bool         // custom: the harness mirror no longer matches the real wire struct (values cannot be read back)
 	GoT    reflect.Type // Go type this node describes (for custom: the type with the methods)
 }
 
@@ -379,10 +380,10 @@ func (d *deriver) custom(t reflect.Type, spec customSpec) (*Sch, error) {
 	if w == nil {
 		w = mir
 	}
-	if real != nil && mir != nil && real.lean() != mir.lean() {
-		return nil, fmt.Errorf("wire struct of %v changed shape: real %s, harness mirror %s", t, real.lean(), mir.lean())
-	}
-	return &Sch{K: "custom", CK: spec.kind, Elem: w, GoT: t}, nil
+	stale := real != nil && mir != nil && real.lean() != mir.lean()
+	// a reshaped wire struct is followed by the model (schema from the real type); only the value read-back through the
+	// harness' accessor mirror is switched off for it (class, re-encoding and the canonical oracle still run)
+	return &Sch{K: "custom", CK: spec.kind, Elem: w, GoT: t, Stale: stale}, nil
 }
 
 // ---- the in-scope table ------------------------------------------------------------------------------
